@@ -177,7 +177,7 @@ pub mod mpsc {
     //! depend on addresses or content.
     use crate::rec::{self, RecKind};
     use std::fmt;
-    pub use std::sync::mpsc::{RecvError, SendError};
+    pub use std::sync::mpsc::{RecvError, RecvTimeoutError, SendError, TryRecvError};
 
     pub struct Sender<T> {
         chan: usize,
@@ -262,6 +262,33 @@ pub mod mpsc {
     impl<T> Receiver<T> {
         pub fn chan_id(&self) -> usize {
             self.chan
+        }
+
+        pub fn try_recv(&self) -> Result<T, TryRecvError> {
+            let chan = self.chan;
+            match self.inner.try_recv() {
+                Ok((ev_id, t)) => {
+                    rec::with(|r| {
+                        r.chan_queued[chan] -= 1;
+                        r.push(RecKind::Recv { chan, ev_id });
+                    });
+                    Ok(t)
+                }
+                Err(e) => Err(e),
+            }
+        }
+
+        /// Simulated time does not advance while a task waits: a timed receive on an empty channel
+        /// reports a timeout immediately.
+        pub fn recv_timeout(&self, _d: std::time::Duration) -> Result<T, RecvTimeoutError> {
+            match self.try_recv() {
+                Ok(t) => Ok(t),
+                Err(TryRecvError::Empty) => {
+                    shuttle::thread::yield_now();
+                    Err(RecvTimeoutError::Timeout)
+                }
+                Err(TryRecvError::Disconnected) => Err(RecvTimeoutError::Disconnected),
+            }
         }
 
         pub fn recv(&self) -> Result<T, RecvError> {
